@@ -7,6 +7,7 @@ BUILD = os.path.join(ROOT, "build")
 HARNESS_DIR = os.path.join(ROOT, "harness")
 HARNESS = os.path.join(BUILD, "target", "debug", "verif_harness")
 DRIVER = os.path.join(LEAN, ".lake", "build", "bin", "emu_driver")
+CLI = os.path.join(BUILD, "target-cli", "debug", "emulator_8086")
 REPO = os.environ.get("VERIF_REPO", "/repo")
 NSHARDS = int(os.environ.get("VERIF_SHARDS", "16"))
 
@@ -173,7 +174,12 @@ def audit(pid, modules):
 
 def build_harness():
     rc, out = sh(["cargo", "build", "--offline"], cwd=HARNESS_DIR, timeout=3600)
-    return rc == 0, out
+    if rc != 0:
+        return False, out
+    # the real CLI binary, from /repo's working tree, verification hook enabled (MANIFEST.hooks)
+    rc, out2 = sh(["cargo", "build", "--offline", "--manifest-path", os.path.join(REPO, "Cargo.toml"), "--target-dir", os.path.join(BUILD, "target-cli")],
+                  timeout=3600, env={"RUSTFLAGS": "--cfg yjdoc2_8086_emulator_verif"})
+    return rc == 0, out + out2
 
 # ---------------------------------------------------------------------------------------------
 def parse_driver_output(txt):
@@ -221,8 +227,14 @@ def empty_result():
 def tcorr_run(level, group, tier, seed, nshards=NSHARDS, timeout=7200):
     """run one (level, group) sharded; returns merged result, and a 'broken' message if the machinery failed"""
     procs = []
+    gen = os.path.join(ROOT, "tools", "gen_l3.py")
     for i in range(nshards):
-        cmd = f"'{HARNESS}' {level} {group} {tier} {seed} {i} {nshards} | '{DRIVER}'"
+        if level in ("l3", "l4"):
+            kind = "asm" if level == "l3" else "cli"
+            cmd = (f"VERIF_L3_KIND={kind} VERIF_REPO='{REPO}' VERIF_CLI='{CLI}' '{sys.executable}' '{gen}' {group} {tier} {seed} {i} {nshards} "
+                   f"| VERIF_CLI='{CLI}' '{HARNESS}' replay | '{DRIVER}'")
+        else:
+            cmd = f"'{HARNESS}' {level} {group} {tier} {seed} {i} {nshards} | '{DRIVER}'"
         procs.append(subprocess.Popen(["bash", "-o", "pipefail", "-c", cmd], stdout=subprocess.PIPE, stderr=subprocess.PIPE))
     res = empty_result()
     broken = None
